@@ -308,3 +308,85 @@ def atomic_block(path: Path, index: int) -> List[Event]:
     while stop < len(path.events) - 1 and not is_suspension(path.events[stop + 1]):
         stop += 1
     return path.events[start:stop + 1]
+
+
+# ------------------------------------------------- path-sensitive value expansion
+def _frame_start(path: Path, index: int) -> int:
+    """index of the 'enter' event of the (transparent helper) frame active at ``index``"""
+    fid = path.events[index].data.get('fid') if index < len(path.events) else None
+    for pos in range(min(index, len(path.events) - 1), -1, -1):
+        event = path.events[pos]
+        if event.kind == 'enter' and event.data.get('how') == 'helper':
+            # the events after this enter with another fid belong to the helper
+            nxt = path.events[pos + 1] if pos + 1 < len(path.events) else None
+            if nxt is not None and nxt.data.get('fid') == fid:
+                return pos
+    return -1
+
+
+def reaching_store(path: Path, index: int, name: str):
+    """(position, event) of the last store to local ``name`` before ``index`` in its frame"""
+    if index >= len(path.events):
+        index = len(path.events)
+        fid = path.events[-1].data.get('fid') if path.events else None
+    else:
+        fid = path.events[index].data.get('fid')
+    for pos in range(index - 1, -1, -1):
+        event = path.events[pos]
+        if event.data.get('fid') != fid:
+            continue
+        if event.kind == 'store' and event.data.get('path') == name:
+            return pos, event
+    return None
+
+
+def value_expr(path: Path, index: int, expr, depth: int = 6, keep_clock: bool = True,
+               keep=()):
+    """
+    ``expr`` (evaluated at event ``index`` of ``path``) with local names replaced by the
+    value that reaches them **on this path** and helper parameters replaced by the
+    caller's arguments.  Clock reads are kept as the local that holds them.
+    """
+    import copy
+    event = path.events[index] if index < len(path.events) else None
+    bind = event.data.get('bind') if event is not None else None
+    fn = event.fn if event is not None else None
+
+    class Sub(ast.NodeTransformer):
+        def visit_Name(self, node):
+            if not isinstance(node.ctx, ast.Load) or depth <= 0 or node.id in keep:
+                return node
+            if bind and node.id in bind:
+                arg, enter_index = bind[node.id]
+                return value_expr(path, enter_index, arg, depth - 1, keep_clock, keep)
+            found = reaching_store(path, index, node.id)
+            if found is None:
+                return node
+            pos, store = found
+            value = store.data.get('value')
+            if value is None or store.data.get('aug') is not None:
+                return node
+            if isinstance(store.node, ast.Name) is False:
+                return node
+            # tuple unpacking `a, b = f()` stores with the whole right hand side
+            stmt = store.data.get('stmt')
+            if isinstance(stmt, ast.Assign) and not any(
+                    isinstance(t, ast.Name) and t.id == node.id for t in stmt.targets):
+                return node
+            if keep_clock and fn is not None and is_current_time(value, store.fn):
+                return node
+            return value_expr(path, pos, value, depth - 1, keep_clock, keep)
+
+    tree = Sub().visit(copy.deepcopy(expr))
+    return tree
+
+
+def value_text(path: Path, index: int, expr, **kw) -> str:
+    return normalise_state_aliases(ast.unparse(value_expr(path, index, expr, **kw)))
+
+
+def event_index(path: Path, event: Event) -> int:
+    for pos, candidate in enumerate(path.events):
+        if candidate is event:
+            return pos
+    return len(path.events)
